@@ -129,8 +129,8 @@ def check_follow(acc, case, tree, follow, nfollow_lines_before):
     if not alone.accepted:
         return True
     ast.increment_lineno(alone.value, nfollow_lines_before)
-    want = [ast.dump(s, include_attributes=True) for s in alone.value.body]
-    got = [ast.dump(s, include_attributes=True) for s in tree.body[len(tree.body) - len(want):]]
+    want = [base.stable_dump(s) for s in alone.value.body]
+    got = [base.stable_dump(s) for s in tree.body[len(tree.body) - len(want):]]
     acc.count("follow_checks")
     if want != got:
         acc.violation("code-after-macro-parsed-differently", case, {"expected": [w[:200] for w in want], "observed": [g[:200] for g in got]})
